@@ -15,7 +15,7 @@ import hashlib, os, re, shlex, shutil, subprocess, sys, json, time
 from concurrent.futures import ThreadPoolExecutor
 
 REPO = os.environ.get("VERIF_REPO", "/repo")
-CACHE = os.environ.get("VERIF_CACHE", "/verif/.cache")
+CACHE = os.environ.get("VERIF_CACHE", os.path.join(os.path.dirname(os.path.dirname(os.path.abspath(__file__))), ".cache"))
 TOOLS = ["gensquashfs", "rdsquashfs", "tar2sqfs", "sqfs2tar", "sqfsdiff"]
 LIBS = ["libsquashfs_la", "libutil_a", "libxfrm_a", "libfstree_a", "libcommon_a", "libtar_a", "libcompat_a"]
 SYSLIBS = ["-lz", "-llzma", "-llz4", "-lzstd", "-lbz2", "-lselinux", "-lpthread"]
@@ -146,10 +146,16 @@ def build(variant="plain", quiet=True, extra_key=""):
     if os.path.exists(stamp):
         return out
     os.makedirs(CACHE + "/build", exist_ok=True)
-    # evict stale builds of this variant
+    # evict stale builds of this variant (not the fresh ones: another check may still be running on the previous tree)
+    import time as _t
     for d in os.listdir(CACHE + "/build"):
+        dp = os.path.join(CACHE, "build", d)
         if d.startswith(variant + "-") and d != os.path.basename(out):
-            shutil.rmtree(os.path.join(CACHE, "build", d), ignore_errors=True)
+            try:
+                if _t.time() - os.path.getmtime(dp) > 2 * 3600:
+                    shutil.rmtree(dp, ignore_errors=True)
+            except OSError:
+                pass
     shutil.rmtree(out, ignore_errors=True)
     os.makedirs(out + "/obj")
     os.makedirs(out + "/bin")
